@@ -441,6 +441,10 @@ impl<'a> FusedFuture for TimerFuture<'a> {
     }
 }
 
+#[cfg(kani)]
+#[path = "/verif/kani/timer.rs"]
+mod kani_verif;
+
 // Export a non thread-safe version using NoopLock
 
 /// A [`GenericTimerService`] implementation which is not thread-safe.
